@@ -1,0 +1,25 @@
+//go:build verif
+
+// Contracts and ghost/spec functions for package processors, read by the /verif
+// condition generator (govc). Compiled only with -tags verif; adds no behaviour.
+package processors
+
+// Constructors are executed in place by the generator (strongest contract): a new
+// context has an empty stash, a new processor no lines.
+//@ contract NewContext
+//@   tags C08
+//@   opt inline yes
+
+//@ contract NewProcessor
+//@   tags C08
+//@   opt inline yes
+
+//@ contract NewAssemble
+//@   tags C08
+//@   opt inline yes
+
+//@ contract CmdLineTypeFromString
+//@   tags C04 C16
+//@   results ty err
+//@   ensures (err == nil) == (t == "unix" || t == "windows")
+//@   ensures implies(t == "unix", ty == CmdLineUnix) && implies(t == "windows", ty == CmdLineWindows) && implies(err != nil, ty == CmdLineUndefined)
